@@ -663,9 +663,15 @@ class NUMERIC(FieldType):
     def index(self, num, **kwargs):
         # If the user gave us a list of numbers, recurse on the list
         if isinstance(num, (list, tuple)):
+            # Values that fall in the same coarse tier share that tier's
+            # term: emit each term only once per document, otherwise the
+            # document gets duplicate postings
+            seen = set()
             for n in num:
                 for item in self.index(n):
-                    yield item
+                    if item[0] not in seen:
+                        seen.add(item[0])
+                        yield item
             return
 
         # word, freq, weight, valuestring
